@@ -40,7 +40,7 @@ def Pt(names, vals): return {"kind": "Point", "names": list(names), "vals": list
 def Pa(e, v, early=False, touched=False): return {"kind": "Partial", "e": with_lits(e), "v": v, "early": early, "touched": touched}
 def De(e, early=False, touched=False): return {"kind": "Derivative", "e": with_lits(e), "early": early, "touched": touched}
 def Di(e, early=False): return {"kind": "Differential", "e": with_lits(e), "early": early}
-def Lo(e, pt): return {"kind": "Located", "e": with_lits(e), "pt": pt}
+def Lo(e, pt, via="ctor"): return {"kind": "Located", "e": with_lits(e), "pt": pt, "via": via}
 
 
 def realize(o, k=0):
@@ -63,6 +63,11 @@ def realize(o, k=0):
     if kind == "Differential":
         return S.Differential(J.build_tree(o["e"]), compute_early=o["early"])
     if kind == "Located":
+        via = o.get("via", "ctor")
+        if via == "early_at":
+            return S.Differential(J.build_tree(o["e"]), compute_early=True).at(realize(o["pt"]))
+        if via == "late_at":
+            return S.Differential(J.build_tree(o["e"])).at(realize(o["pt"]))
         return S.LocatedDifferential(J.build_tree(o["e"]), realize(o["pt"]))
     if kind == "Foreign":
         return {"none": None, "int": 3, "str": "x", "tuple": (1, 2), "float": 2.5, "list": [1], "object": object()}[o["tag"]]
@@ -182,10 +187,30 @@ def gen_events(pid, tier, seed):
         # points
         pts = [Pt(["x", "y"], [gen.q(3), gen.q(9, 2)]), Pt(["y", "x"], [gen.q(9, 2), gen.q(3)]), Pt(["x", "y"], [fl(3), gen.q(9, 2)]), Pt(["x", "y"], [gen.q(3), gen.q(4)]),
                Pt(["x"], [gen.q(3)]), Pt(["x", "y", "z"], [gen.q(3), gen.q(9, 2), gen.q(0)]), Pt([], []), Pt(["y", "x"], [gen.q(3), gen.q(9, 2)]), Pt(["x", "z"], [gen.q(3), gen.q(9, 2)])]
+        # values with EQUAL HASHES in CPython: hash(-1) == hash(-2), hash(0) == hash(2**61 - 1), hash(0.5) == hash(2**60)
+        big = {"k": "f", "repr": str(2 ** 61 - 1)}
+        pts += [Pt(["x"], [gen.q(-1)]), Pt(["x"], [gen.q(-2)]), Pt(["x", "y"], [gen.q(-1), gen.q(5)]), Pt(["x", "y"], [gen.q(-2), gen.q(5)]),
+                Pt(["x"], [gen.q(0)]), Pt(["x"], [fl(-1)]), Pt(["x"], [fl(-2)])]
         for a in pts:
             ev.append({"kind": "refl", "o": a})
             for b in pts:
                 ev.append({"kind": "cmp", "a": a, "b": b})
+        sq = J.Mul(gen.X, gen.X)
+        for ea, eb in ((sq, sq), (J.ConstV(gen.q(-1)), J.ConstV(gen.q(-2))), (J.Mul(J.Const(-1), gen.X), J.Mul(J.Const(-2), gen.X))):
+            for pa, pb in ((pts[-7], pts[-6]), (pts[-5], pts[-4])):
+                if set(J.variables(ea)) <= set(pa["names"]):
+                    ev.append({"kind": "cmp", "a": Lo(ea, pa), "b": Lo(eb, pb)})
+            ev.append({"kind": "cmp", "a": Ex(ea), "b": Ex(eb)})
+            ev.append({"kind": "cmp", "a": Di(ea), "b": Di(eb)})
+        # one LocatedDifferential through every construction route (direct, late Differential.at, early Differential.at): all equal
+        for t, names, vals in ((J.Un("Reciprocal", J.Mul(gen.X, gen.Y)), ["x", "y"], [gen.q(3), gen.q(7)]), (J.Bin("Divide", gen.X, J.Mul(gen.Y, gen.Y)), ["x", "y"], [gen.q(3), gen.q(5)]),
+                               (J.Bin("Divide", J.KUn("NthPower", gen.X, 2), gen.Y), ["x", "y"], [gen.q(7), gen.q(3)]), (J.Bin("Divide", J.Mul(gen.X, gen.Y), J.Add(gen.X, gen.Y)), ["x", "y"], [gen.q(2), gen.q(3)]),
+                               (J.Mul(J.Un("Sine", gen.X), J.BUn("Exponential", gen.Y, gen.E_)), ["x", "y"], [gen.q(1), gen.q(2)])):
+            objs = [Lo(t, Pt(names, vals), via) for via in ("ctor", "late_at", "early_at")]
+            for a in objs:
+                for b in objs:
+                    ev.append({"kind": "cmp", "a": a, "b": b})
+            ev.append({"kind": "trans", "a": objs[0], "b": objs[1], "c": objs[2]})
         for a, b, c in [(pts[0], pts[1], pts[2]), (pts[0], pts[3], pts[1]), (pts[4], pts[0], pts[5])]:
             ev.append({"kind": "trans", "a": a, "b": b, "c": c})
         # derivative objects: edit in expression / variable / point / early flag / already-computed state
@@ -228,6 +253,10 @@ def gen_events(pid, tier, seed):
             pr += [Ex(J.ConstV(v)), Ex(J.Add(gen.X, J.ConstV(v))), Ex(J.Bin("Power", gen.X, J.ConstV(v)))]
         for b in bases_b:
             pr += [Ex(J.BUn("Exponential", gen.X, b)), Ex(J.BUn("Logarithm", J.Add(gen.X, gen.Y), b)), De(J.BUn("Logarithm", gen.X, b)), Pa(J.BUn("Logarithm", gen.X, b), "x")]
+        for c1, c2 in ((-1, -2), (-2, -1), (0, 2 ** 61 - 1)):
+            for mk in (lambda c: J.Mul(J.Const(c), gen.X), lambda c: J.Add(J.Un("Cosine", gen.X), J.Const(c)), lambda c: J.Mul(J.Un("Sine", gen.X), J.Const(c), gen.Y)):
+                if abs(c2) < 30000 and abs(c1) < 30000:
+                    pr += [Ex(mk(c1)), Ex(mk(c2)), Di(mk(c1)), Di(mk(c2)), Pa(mk(c1), "x"), Pa(mk(c2), "x")]
         for k in range(1, 8):
             pr += [Ex(J.KUn("NthPower", gen.X, k)), Ex(J.KUn("NthRoot", gen.X, k)), Ex(J.KUn("NthRoot", J.KUn("NthPower", gen.Y, k), k + 1))]
         for t in bases[: (150 if quick else 2000)]:
@@ -258,6 +287,8 @@ def gen_events(pid, tier, seed):
             for sym in ops:
                 ev.append({"kind": "operator", "sym": sym, "a": a, "b": b, "k": 0, "expect_reject": False})
             ev.append({"kind": "operator", "sym": "neg", "a": a, "b": a, "k": 0, "expect_reject": False})
+            for sym in ops:       # the SAME object on both sides (a * a, a + a, a ** a ...)
+                ev.append({"kind": "operator", "sym": sym, "a": a, "b": a, "k": 0, "expect_reject": False, "same": True})
         for a in rnd.sample(bases, 60 if quick else 500):
             for k in (1, 2, 3, 7, 12):
                 for spell in ("int", "float"):
@@ -370,7 +401,7 @@ def run_impl(ev):
                     res = eval(src, env)
                     e.update(raised=False, result=J.expr_to_E(res) if isinstance(res, S.Expression) else {"op": "Constant", "val": gen.q(0)}, eq_ctor=False)
                 else:
-                    b = J.build_tree(e["b"])
+                    b = a if e.get("same") else J.build_tree(e["b"])
                     sym = e["sym"]
                     if sym == "neg":
                         res, ctor = -a, S.Negation(a)
@@ -389,6 +420,12 @@ def run_impl(ev):
                         res, ctor = a ** kk, S.NthPower(a, e["k"])
                     e.update(raised=False, result=J.expr_to_E(res), eq_ctor=bool(res == ctor) and repr(res) == repr(ctor) and type(res) is type(ctor))
             elif kind == "ctor":
+                sp0 = e["spell"]
+                try:
+                    run_ctor(dict(e), S, ns)          # first attempt (outcome judged through the second, identical attempt)
+                except Exception:
+                    pass
+                e["spell"] = sp0
                 run_ctor(e, S, ns)
         except OverflowError:
             e["kind"] = "skip"              # exact intermediates leave the floating-point range while an object is being built: excluded
